@@ -171,8 +171,11 @@ Record block := mk_block {
   b_data : list byte
 }.
 
+(* The time table under construction is kept newest-first (`e_ttr`) together with its length
+   (`e_len`, a ghost field: Vec::len is O(1)); the public table is `rev e_ttr`. *)
 Record encoder := mk_enc {
-  e_tt : list N;
+  e_ttr : list N;
+  e_len : N;
   e_signals : list signal_encoder;
   e_new : bool;           (* has_new_data *)
   e_skip : bool;          (* skipping_time_step *)
@@ -180,7 +183,7 @@ Record encoder := mk_enc {
 }.
 
 Definition enc_new (tpes : list sig_enc) : encoder :=
-  mk_enc [] (map se_new tpes) false false [].
+  mk_enc [] 0 (map se_new tpes) false false [].
 
 Fixpoint finish_signals (sigs : list signal_encoder) (data : list byte)
   : list signal_encoder * list (option nat) * list byte :=
@@ -199,26 +202,36 @@ Fixpoint finish_signals (sigs : list signal_encoder) (data : list byte)
     end
   end.
 
+Fixpoint last_opt {A} (l : list A) : option A :=
+  match l with
+  | [] => None
+  | [x] => Some x
+  | _ :: r => last_opt r
+  end.
+
 (* Encoder::finish_block *)
 Definition finish_block (e : encoder) : outcome encoder :=
   if negb (e_new e) then Ok e
   else
     let '(sigs, offsets, data) := finish_signals (e_signals e) [] in
-    do start_time <- of_option (hd_error (e_tt e));
-    do end_time <- of_option (hd_error (rev (e_tt e)));
-    Ok (mk_enc [end_time] sigs false (e_skip e)
-               (e_blocks e ++ [mk_block start_time (e_tt e) offsets data])).
+    do start_time <- of_option (last_opt (e_ttr e));              (* time_table.first().unwrap() *)
+    do end_time <- of_option (hd_error (e_ttr e));                (* time_table.last().unwrap() *)
+    Ok (mk_enc [end_time] 1 sigs false (e_skip e)
+               (e_blocks e ++ [mk_block start_time (rev_append (e_ttr e) []) offsets data])).
 
 (* Encoder::time_change *)
 Definition time_change (e : encoder) (time : N) : outcome encoder :=
   let continue_ (e : encoder) :=
-    do e1 <- (if cap <=? N.of_nat (length (e_tt e)) then finish_block e else Ok e);
-    Ok (mk_enc (e_tt e1 ++ [time]) (e_signals e1) true false (e_blocks e1)) in
-  match hd_error (rev (e_tt e)) with
+    do e1 <- (if cap <=? e_len e
+              then do e0 <- finish_block e;                        (* followed by time_table.clear() *)
+                   Ok (mk_enc [] 0 (e_signals e0) (e_new e0) (e_skip e0) (e_blocks e0))
+              else Ok e);
+    Ok (mk_enc (time :: e_ttr e1) (e_len e1 + 1) (e_signals e1) true false (e_blocks e1)) in
+  match hd_error (e_ttr e) with
   | Some prev =>
     match N.compare prev time with
-    | Eq => Ok e
-    | Gt => Ok (mk_enc (e_tt e) (e_signals e) (e_new e) true (e_blocks e))
+    | Eq => Ok (mk_enc (e_ttr e) (e_len e) (e_signals e) (e_new e) false (e_blocks e))
+    | Gt => Ok (mk_enc (e_ttr e) (e_len e) (e_signals e) (e_new e) true (e_blocks e))
     | Lt => continue_ e
     end
   | None => continue_ e
@@ -226,15 +239,15 @@ Definition time_change (e : encoder) (time : N) : outcome encoder :=
 
 Definition with_signal (e : encoder) (id : nat) (f : signal_encoder -> N -> outcome signal_encoder)
   : outcome encoder :=
-  match e_tt e with
+  match e_ttr e with
   | [] => Panic                                  (* assert!(!self.time_table.is_empty()) *)
   | _ =>
     if e_skip e then Ok e
     else
-      let time_idx := u16_wrap (N.of_nat (length (e_tt e) - 1)) in
+      let time_idx := u16_wrap (e_len e - 1) in
       do se <- of_option (nth_error (e_signals e) id);
       do se' <- f se time_idx;
-      Ok (mk_enc (e_tt e) (list_update (e_signals e) id se') true (e_skip e) (e_blocks e))
+      Ok (mk_enc (e_ttr e) (e_len e) (list_update (e_signals e) id se') true (e_skip e) (e_blocks e))
   end.
 
 (* Encoder::vcd_value_change / raw_value_change / real_change *)
@@ -252,10 +265,10 @@ Definition append (e other : encoder) : outcome encoder :=
   match e_blocks o1 with
   | [] => Ok e1
   | first :: _ =>
-    do last_block <- of_option (hd_error (rev (e_blocks e1)));       (* self.blocks.last().unwrap() *)
-    do us_end <- of_option (hd_error (rev (b_tt last_block)));       (* end_time() *)
+    do last_block <- of_option (last_opt (e_blocks e1));             (* self.blocks.last().unwrap() *)
+    do us_end <- of_option (last_opt (b_tt last_block));             (* end_time() *)
     if us_end <=? b_start first
-    then Ok (mk_enc (e_tt e1) (e_signals e1) (e_new e1) (e_skip e1) (e_blocks e1 ++ e_blocks o1))
+    then Ok (mk_enc (e_ttr e1) (e_len e1) (e_signals e1) (e_new e1) (e_skip e1) (e_blocks e1 ++ e_blocks o1))
     else Panic                                                       (* assert! chronological *)
   end.
 
@@ -263,6 +276,27 @@ Definition append (e other : encoder) : outcome encoder :=
 Definition enc_finish (e : encoder) : outcome (list block * list N) :=
   do e1 <- finish_block e;
   Ok (e_blocks e1, flat_map b_tt (e_blocks e1)).
+
+(* operation sequences on one encoder (the histories properties C02/C04 quantify over) *)
+Inductive enc_op :=
+| OpTime (t : N)
+| OpVcd (id : nat) (value : list byte)
+| OpRaw (id : nat) (value : list byte) (st : states)
+| OpReal (id : nat) (le : list byte).
+
+Definition run_op (e : encoder) (op : enc_op) : outcome encoder :=
+  match op with
+  | OpTime t => time_change e t
+  | OpVcd id v => vcd_value_change e id v
+  | OpRaw id v st => raw_value_change e id v st
+  | OpReal id le => real_change e id le
+  end.
+
+Fixpoint run_ops (e : encoder) (ops : list enc_op) : outcome encoder :=
+  match ops with
+  | [] => Ok e
+  | op :: r => do e' <- run_op e op; run_ops e' r
+  end.
 
 (* ------------------------------------------------------------------ Reader *)
 
@@ -392,7 +426,7 @@ Fixpoint load_strings (fuel : nat) (data : list byte) (last_time_idx : N) (acc :
         if (length data2 <? len)%nat then Panic
         else
           let s := firstn len data2 in
-          let changed := match hd_error (rev (la_strings acc)) with
+          let changed := match last_opt (la_strings acc) with
                          | Some prev => negb (list_eqb prev s)
                          | None => true
                          end in
